@@ -51,6 +51,13 @@ def containers(rng, pk, grid, thorough):
         off = rng.choice([1, 3600, 1600000000, -5])
         out.append((f"pcapng-{tag}-tsoffset", ns.pcapng(pk, le=le, tsoffset=off), False))
         out.append((f"pcapng-{tag}-tsresol9-tsoffset-junk", ns.pcapng(with_junk(rng, pk, e, 3), le=le, tsresol=9, tsoffset=off), False))
+        out.append((f"pcapng-{tag}-tsoffset-then-tsresol9", ns.pcapng(pk, le=le, tsresol=9, tsoffset=off, offset_first=True), False))
+        out.append((f"pcapng-{tag}-extra-options", ns.pcapng(pk, le=le, tsresol=rng.choice([None, 6, 9]), tsoffset=rng.choice([None, off]), offset_first=rng.random() < 0.5,
+                                                             extra_opts=True, epb_opts=True), False))
+        if grid % 1000 == 0:
+            out.append((f"pcapng-{tag}-tsoffset-then-tsresol3", ns.pcapng(pk, le=le, tsresol=3, tsoffset=off, offset_first=True, epb_opts=rng.random() < 0.5), False))
+        if grid % 15625 == 0:
+            out.append((f"pcapng-{tag}-tsoffset-then-tsresol2^-20", ns.pcapng(pk, le=le, tsresol=0x80 | 20, tsoffset=off, offset_first=True), False))
         if grid % 1000 == 0:
             out.append((f"pcapng-{tag}-tsresol3", ns.pcapng(pk, le=le, tsresol=3), False))
         if grid % 15625 == 0:
@@ -69,7 +76,7 @@ def build(tier, seed):
         return eval_case(case, random.Random(engine.subseed("C12", seed, case["id"])), thorough)
 
     return dict(cases=cases, evalfn=evalfn, level="exploration", min_nontrivial=25,
-                rule="per scene (1-3 TLS/QUIC connections + noise) 19-27 containers of the same packet list, timestamps on the grid all of them can represent "
+                rule="per scene (1-3 TLS/QUIC connections + noise) 23-35 containers (incl. both orders of if_tsoffset/if_tsresol and unrelated SHB/IDB/EPB options) of the same packet list, timestamps on the grid all of them can represent "
                      "(1 us / 1 ms / 1/64 s). Class = (container kind, grid, outcome); non-trivial = the baseline exported packets and the container's output was compared byte for byte",
                 assumptions=["one interface per capture; dsb-less containers take the keys from the -s file"])
 
